@@ -68,6 +68,8 @@ extern int  cfg_lexer_include(cfg_t *cfg, const char *fname);
 extern void cfg_scan_fp_begin(FILE *fp);
 extern void cfg_scan_fp_end(void);
 extern void cfg_scan_include_unwind(int depth);
+extern int cfg_scan_read_error_hold(void);
+extern void cfg_scan_read_error_restore(int err);
 extern int  cfg_include_stack_ptr;
 
 static int cfg_parse_internal(cfg_t *cfg, int level, int force_state, cfg_opt_t *force_opt);
@@ -1854,6 +1856,7 @@ DLLIMPORT int cfg_parse_fp(cfg_t *cfg, FILE *fp)
 {
 	int ret;
 	int depth;
+	int held;
 
 	if (!cfg || !fp) {
 		errno = EINVAL;
@@ -1867,10 +1870,12 @@ DLLIMPORT int cfg_parse_fp(cfg_t *cfg, FILE *fp)
 
 	cfg->line = 1;
 	depth = cfg_include_stack_ptr;
+	held = cfg_scan_read_error_hold();
 	cfg_scan_fp_begin(fp);
 	ret = cfg_parse_internal(cfg, 0, -1, NULL);
 	cfg_scan_include_unwind(depth);
 	cfg_scan_fp_end();
+	cfg_scan_read_error_restore(held);
 	if (ret == STATE_ERROR)
 		return CFG_PARSE_ERROR;
 
